@@ -20,7 +20,7 @@ MANIFEST = dict(
          'real front half, desugar_blocks and the Lowerer and must give identical RawInstr lists.',
     note='Trusted: TLC, CommunityModules Json, the structural AST exporter and JSON->text renderer, the syntactic expansion of abstract '
          'trees to the interchange form in checks/c10.py. Bounded: tree sizes per vocabulary (see coverage.families). Not decided: which '
-         'of a local and a const of one block wins (excluded, DESIGN C10); enum consts and builtin consts; function items in the renaming half '
+         'of a local and a const of one block wins (excluded, DESIGN C10); builtin consts; function items in the renaming half '
          '(truth cannot compile user functions).',
 )
 
@@ -289,9 +289,15 @@ def run(chk, replay=None):
     inputs = []
     for row in rows:
         names = {oc["p"]: oc["n"] for oc in row["occ"]}
-        inp = {"id": row["id"], "lang": row["lang"], "body": subst(row["keyed"], names)}
-        if row["clean"] and row["lang"] == "own" and row["fam"] != "F":
+        with_enum = row["lang"].endswith("+e")
+        inp = {"id": row["id"], "lang": row["lang"].replace("+e", ""), "body": subst(row["keyed"], names)}
+        if with_enum:
+            inp["genum"] = "ALIAS"      # = Scopes!AliasVar: a global enum const spelled like the register alias
+        if row["clean"] and inp["lang"] == "own" and row["fam"] != "F":
             inp["ren"] = [subst(row["keyed"], {oc["p"]: oc[r] for oc in row["occ"]}) for r in ("r1", "r2")]
+            if with_enum:
+                inp["ren_genum"] = ["ge1", "ge2"]
+                chk.add("renamed_with_enum_const")
         inputs.append(inp)
     nshards = 6
     paths = []
@@ -334,4 +340,4 @@ def run(chk, replay=None):
                     "occurrence with Scopes!Declarative; error-free trees without function items are also compiled under two renamings")
     chk.assume("a local and a const of one name declared in the same block, and uses that see a redefinition: generated and run, occurrences not compared")
     chk.assume("function items are resolved but not compiled (renaming half): truth has no code generation for user functions")
-    chk.assume("enum consts and builtin consts (INF, PI, ...) are not part of the vocabulary")
+    chk.assume("one global enum const (spelled like the register alias, `+e` compilations) is part of the vocabulary; builtin consts (INF, PI, ...) are not")
